@@ -5,6 +5,7 @@ import (
 	"go/ast"
 	"go/token"
 	"sort"
+	"strconv"
 	"strings"
 	"unicode"
 )
@@ -95,34 +96,73 @@ func (g *gen) parserBeginTag() {
 	g.p("Definition parser_implicit_print : list N := %s.\n", coqIntList(l))
 	g.js["parser_implicit_print"] = implicit
 
-	// specialChars
+	// specialChars: by pattern (the map literal) and by evaluation (the map of the compiled package, evalparse.go)
 	type sc struct {
 		c int
 		s string
 	}
 	var scs []sc
-	if cl, ok := g.varValue(rel, "specialChars").(*ast.CompositeLit); ok {
-		for _, el := range cl.Elts {
-			kv, ok := el.(*ast.KeyValueExpr)
-			if !ok {
-				g.fail("specialChars: element is not key: value")
-				continue
+	perr := g.silent(func() {
+		if cl, ok := g.varValue(rel, "specialChars").(*ast.CompositeLit); ok {
+			seen := map[int]bool{}
+			for _, el := range cl.Elts {
+				kv, ok := el.(*ast.KeyValueExpr)
+				if !ok {
+					g.fail("specialChars: element is not key: value")
+					continue
+				}
+				id, ok1 := kv.Key.(*ast.Ident)
+				s, ok2 := strLit(kv.Value)
+				if !ok1 || !ok2 {
+					g.fail("specialChars: entry is not itemX: \"literal\"")
+					continue
+				}
+				c, ok := codes[id.Name]
+				if !ok || seen[c] {
+					g.fail("specialChars: unknown or repeated item type %s", id.Name)
+					continue
+				}
+				seen[c] = true
+				scs = append(scs, sc{c, s})
 			}
-			id, ok1 := kv.Key.(*ast.Ident)
-			s, ok2 := strLit(kv.Value)
-			if !ok1 || !ok2 {
-				g.fail("specialChars: entry is not itemX: \"literal\"")
-				continue
-			}
-			c, ok := codes[id.Name]
-			if !ok {
-				g.fail("specialChars: unknown item type %s", id.Name)
-				continue
-			}
-			scs = append(scs, sc{c, s})
+		} else {
+			g.fail("specialChars: composite literal not found")
 		}
-	} else {
-		g.fail("specialChars: composite literal not found")
+	})
+	pats := ""
+	if len(perr) == 0 {
+		m := map[string]string{}
+		for _, x := range scs {
+			m[fmt.Sprintf("%04d", x.c)] = x.s
+		}
+		pats = canonMap(m)
+	}
+	ev, everrs := g.evalParse()
+	evs, everr := "", evErr(everrs, "specialChars")
+	var evScs []sc
+	var rawSC map[string]string
+	if ev.get("specialChars", &rawSC) {
+		m := map[string]string{}
+		okAll := true
+		for k, hv := range rawSC {
+			c, err1 := strconv.Atoi(k)
+			v, err2 := hexDecode(hv)
+			if err1 != nil || err2 != nil || c < 0 || c >= len(codes) {
+				okAll, everr = false, "malformed evaluation result"
+				break
+			}
+			m[fmt.Sprintf("%04d", c)] = v
+			evScs = append(evScs, sc{c, v})
+		}
+		if okAll {
+			evs = canonMap(m)
+		}
+	}
+	switch g.choose("parse/parse.go specialChars (parser model)", pats, strings.Join(perr, "; "), evs, everr) {
+	case routeEval:
+		scs = evScs
+	case routeNone:
+		scs = nil
 	}
 	sort.Slice(scs, func(i, j int) bool { return scs[i].c < scs[j].c })
 	var parts []string
